@@ -35,7 +35,7 @@ _M = [("Checker", "Checker_%s.cfg" % op, "operational model of check_product_aut
        "answer over three state names (one of them not a product state): model OK => criterion" % op)
       for op in ("union", "intersection", "symmetric_difference")]
 MODELS = {"quick": _M, "thorough": _M}
-RULE = ("23 checker families x seeded exercise instances (small random reference DFAs/NFAs/grammars/regexps); per "
+RULE = ("25 checker families x seeded exercise instances (small random reference DFAs/NFAs/grammars/regexps); per "
         "instance the library's own answer and 3-6 single mutations of it (flip a final state, retarget a transition, "
         "other initial state, extra state, drop/flip a table cell or row, another phase's grammar, skip a derivation "
         "step, the other derivation order, ...), rendered with the library's printers and submitted to the real "
@@ -59,7 +59,7 @@ def check(tier, seed):
     return base.standard_check(PID, tier, seed, tasks(tier, seed), MODELS[tier], RULE, nontrivial, matchers=MATCHERS,
                                assumptions=["answers are rendered from abstract values with the library's printers "
                                             "(C16); ill-formed texts are covered by C17", "length bounds 2-4",
-                                            "PDA/TM answers are not submitted (closure/step budgets are C02/C09)"])
+                                            "PDA answers without epsilon moves that push (closures far below the iteration limit), TM answers under the default step budget"])
 
 
 def replay(path, seed):
